@@ -106,7 +106,7 @@ func GenC14ClientCancelEnds(r *RNG) *CliPlan {
 	nc := 40 + r.Intn(15)
 	for k := 0; k < nc; k++ {
 		q, l := downloadLane(r, k, 16384, "full")
-		q.Cancel = "any"
+		q.Cancel = "seen-stalled"
 		l.AfterCancel = true
 		p.Reqs = append(p.Reqs, q)
 		p.Lanes = append(p.Lanes, l)
